@@ -4,7 +4,7 @@ import Splipy.Model.Orientation
 
 /-! Lemmas for C17: flat C-order storage (`ravel`/`unravel`) and `NdArr.ofFn`/`get`. -/
 
-namespace Splipy
+namespace Splipy.MP
 
 /-- multi-index `i` is inside the shape `s`. -/
 def InRange (i s : List ℕ) : Prop := i.length = s.length ∧ ∀ d, d < s.length → i.getD d 0 < s.getD d 0
@@ -103,4 +103,4 @@ theorem NdArr.ofFn_congr {α : Type} (s : List ℕ) (f g : List ℕ → α)
     simp only [Array.getElem_ofFn]
     exact h _ (unravel_inRange (by simpa using h1))
 
-end Splipy
+end Splipy.MP
